@@ -67,6 +67,13 @@ func (w *sworld) setupCluster() {
 func (w *sworld) createPool(name string) {
 	p := &metallbv1beta1.IPAddressPool{ObjectMeta: metav1.ObjectMeta{Namespace: metallbNS, Name: name, Labels: map[string]string{"tier": []string{"x", "y"}[w.pick(2, "pool tier")]}}}
 	p.Spec.Addresses = poolDefs[name]
+	if w.pick(2, "pool pinned") == 1 {
+		// several pools pinned to the same namespaces (C18)
+		p.Spec.AllocateTo = &metallbv1beta1.ServiceAllocation{Priority: w.pick(3, "pool priority"), Namespaces: []string{"default", "other"}[:1+w.pick(2, "pool namespaces")]}
+		if w.pick(2, "pool svc selector") == 1 {
+			p.Spec.AllocateTo.ServiceSelectors = []metav1.LabelSelector{{MatchLabels: map[string]string{"app": "x"}}}
+		}
+	}
 	_ = w.srv.Create(p)
 	w.logf("ENV create pool %s %v labels=%v", name, p.Spec.Addresses, p.Labels)
 }
@@ -143,14 +150,20 @@ func (w *sworld) opBGPAdv() bool {
 	adv.Spec.IPAddressPools, adv.Spec.IPAddressPoolSelectors = w.genPoolSel()
 	adv.Spec.NodeSelectors = w.genNodeSel()
 	// distinct aggregation lengths per advertisement keep local preferences compatible
-	agg4 := []int32{32, 30, 28}[idx]
-	agg6 := []int32{128, 126, 124}[idx]
-	if w.pick(2, "agg default") == 0 && idx == 0 {
+	// the local preference is a function of the aggregation lengths, so that advertisements with
+	// equal aggregation (which may then produce identical routes) never conflict
+	ai := w.pick(3, "aggregation")
+	agg4 := []int32{32, 30, 28}[ai]
+	agg6 := []int32{128, 126, 124}[ai]
+	if w.pick(10, "too short aggregation") == 0 {
+		agg4 = 24 // shorter than the /28 pools: the configuration must be rejected (whatever the order)
+	}
+	if w.pick(2, "agg default") == 0 && ai == 0 {
 		adv.Spec.AggregationLength, adv.Spec.AggregationLengthV6 = nil, nil
 	} else {
 		adv.Spec.AggregationLength, adv.Spec.AggregationLengthV6 = &agg4, &agg6
 	}
-	adv.Spec.LocalPref = []uint32{0, 100, 200}[w.pick(3, "localpref")]
+	adv.Spec.LocalPref = []uint32{0, 100, 200}[ai]
 	switch w.pick(5, "communities") {
 	case 1:
 		adv.Spec.Communities = []string{"65000:1"}
@@ -319,7 +332,20 @@ func (w *sworld) opUpdateService() bool {
 	}
 	svc := w.getSvc(keys[w.pick(len(keys), "which svc")])
 	svc.ResourceVersion = ""
-	switch w.pick(6, "svc update") {
+	switch w.pick(7, "svc update") {
+	case 6:
+		// the controller drops one of two addresses (or the service keeps only its first)
+		in := svc.Status.LoadBalancer.Ingress
+		if len(in) != 2 || w.sharesAddress(svc) {
+			return false
+		}
+		keep := 0
+		if !w.k.avoidKnown {
+			keep = w.pick(2, "keep which")
+		}
+		svc.Status.LoadBalancer.Ingress = []v1.LoadBalancerIngress{in[keep]}
+		_ = w.srv.UpdateStatus(svc)
+		w.logf("ENV status of %s shrinks to %v", svc.Name, ingressOf(svc))
 	case 0:
 		setStatus(svc, w.pickAddrs())
 		_ = w.srv.UpdateStatus(svc)
@@ -332,8 +358,12 @@ func (w *sworld) opUpdateService() bool {
 			return false
 		}
 		if w.k.avoidKnown && len(o.Status.LoadBalancer.Ingress) > 1 {
-			// listed finding: a single-stack service sharing the second address of a dual-stack one
+			// listed finding: a single-stack service sharing the SECOND address of a dual-stack one;
+			// sharing everything or only the first address stays in the main exploration
 			svc.Status.LoadBalancer.Ingress = append([]v1.LoadBalancerIngress{}, o.Status.LoadBalancer.Ingress...)
+			if w.pick(2, "share first only") == 1 {
+				svc.Status.LoadBalancer.Ingress = svc.Status.LoadBalancer.Ingress[:1]
+			}
 		} else if w.pick(2, "share all") == 0 {
 			svc.Status.LoadBalancer.Ingress = append([]v1.LoadBalancerIngress{}, o.Status.LoadBalancer.Ingress...)
 		} else {
@@ -500,6 +530,7 @@ func (w *sworld) opNode() bool {
 	if o == nil {
 		node := &v1.Node{ObjectMeta: metav1.ObjectMeta{Name: n, Labels: map[string]string{"zone": []string{"a", "b"}[w.pick(2, "zone")], "kubernetes.io/hostname": n}}}
 		_ = w.srv.Create(node)
+		w.cfgRelevantSinceQ = true
 		w.logf("ENV create node %s %v", n, node.Labels)
 		return true
 	}
@@ -528,6 +559,7 @@ func (w *sworld) opNode() bool {
 		} else {
 			node.Labels["zone"] = "a"
 		}
+		w.cfgRelevantSinceQ = true
 		_ = w.srv.Update(node)
 		w.logf("ENV node %s labels=%v", n, node.Labels)
 	case 3:
@@ -538,6 +570,7 @@ func (w *sworld) opNode() bool {
 		if w.spk[n] == nil {
 			// a node is only deleted once its speaker is gone
 			_ = w.srv.Delete("Node", "/"+n)
+			w.cfgRelevantSinceQ = true
 			w.logf("ENV delete node %s", n)
 		} else {
 			return false
@@ -641,12 +674,16 @@ func (w *sworld) envOp() {
 			ok = w.opNode()
 		case r < 16:
 			ok = w.opL2Adv()
+			w.cfgRelevantSinceQ = true
 		case r < 19:
 			ok = w.opBGPAdv()
+			w.cfgRelevantSinceQ = true
 		case r < 20:
 			ok = w.opPeer()
+			w.cfgRelevantSinceQ = true
 		case r < 21:
 			ok = w.opPool()
+			w.cfgRelevantSinceQ = true
 		case r < 23:
 			ok = w.opSpeaker()
 		default:
